@@ -469,6 +469,38 @@ def _s2(program, res):
     res.expect_count("C14-S2", "ops values passed to builder calls inside the generator", n, 2)
 
 
+def _s2b_quoted_interpolation(program, res):
+    """the library's own pipeline builders (solutions.py) write expressions as text.  A value of the caller pasted between quote characters into that
+    text (`f'(c == "{mark}")'`) is expression *source*: a quote or a backslash in the value changes the expression.  Constants go in through the
+    literal printer (Value(v).to_python()) or as terms"""
+    mod = program.module("solutions")
+    n = 0
+    for f in program.all_functions():
+        if f.module is not mod:
+            continue
+        params = set(f.params())
+        for js in ast.walk(f.node):
+            if not isinstance(js, ast.JoinedStr):
+                continue
+            vals = js.values
+            for i, v in enumerate(vals):
+                if not isinstance(v, ast.FormattedValue):
+                    continue
+                before = vals[i - 1].value if i > 0 and isinstance(vals[i - 1], ast.Constant) else ""
+                after = vals[i + 1].value if i + 1 < len(vals) and isinstance(vals[i + 1], ast.Constant) else ""
+                names = {x.id for x in ast.walk(v.value) if isinstance(x, ast.Name)}
+                if not (names & params):
+                    continue
+                n += 1
+                if before[-1:] in ("'", '"') and after[:1] == before[-1:]:
+                    res.fail_at("C14-S2", f, f"value-pasted-between-quotes:{f.node.name}:{sorted(names & params)[0]}",
+                                f"`{unparse(js)[:80]}` pastes the caller's `{sorted(names & params)[0]}` between quotes into expression source: marks 'S\" + \"T' / 'E\" + \"V' "
+                                f"turn the test into `record_type == ('E' + 'V')`, a backslash or a quote in the mark leaves the stand-in values in the output or fails to parse", js)
+                else:
+                    res.ok("C14-S2", f"{f.node.name}: `{unparse(v.value)[:40]}` enters expression text as a name or through the literal printer", nontrivial=False)
+    res.expect_count("C14-S2", "caller values formatted into expression text in solutions.py", n, 5)
+
+
 LINE_BREAKS = ["\n", "\r", "\r\n", "\x0b", "\x0c", "\x1c", "\x1d", "\x1e", "\x85", " ", " "]
 
 
@@ -659,7 +691,25 @@ def _s4(program, res, known_style=True):
                 res.fail_at("C14-S4", qs, f"{cls}:{nm}",
                             f"{cls}: {ch!r} is special inside a {sq}…{sq} literal of this dialect and quote_string leaves it as is: the value read back differs "
                             f"(or the literal does not end where intended)")
-        # quote_identifier: rejects the quote character, wraps
+        # quote_identifier: rejects the quote character, wraps.  An override that only refuses more names and hands the name on unchanged to an
+        # implementation up the hierarchy (`return <Base>.quote_identifier(self, identifier)` / super()) is judged by that implementation
+        hops = 0
+        while hops < 3:
+            rets_ = T.returns_of(qi.node)
+            deleg = [r for r in rets_ if isinstance(r, ast.Call) and isinstance(r.func, ast.Attribute) and r.func.attr == "quote_identifier"
+                     and [unparse(a) for a in r.args][-1:] == [qi.params()[1]]]
+            if not rets_ or len(deleg) != len(rets_):
+                break
+            base_name = unparse(deleg[0].func.value).split(".")[-1].replace("super()", "")
+            nxt = None
+            for b_ in qi.cls.mro()[1:]:
+                m_ = b_.methods.get("quote_identifier")
+                if m_ is not None and (not base_name or True):
+                    nxt = m_
+                    break
+            if nxt is None:
+                break
+            qi, hops = nxt, hops + 1
         t = unparse(qi.node)
         rejects = any(isinstance(n, ast.If) and "self.identifier_quote in identifier" in unparse(n.test)
                       and any(isinstance(b, ast.Raise) for b in n.body) for n in ast.walk(qi.node))
@@ -668,6 +718,18 @@ def _s4(program, res, known_style=True):
             res.ok("C14-S4", f"{cls}: quote_identifier ({qi.qualname}) rejects names containing {iq!r} and wraps the rest unchanged")
         else:
             res.fail_at("C14-S4", qi, f"{cls}:identifier-quote", f"{cls}: {qi.qualname} no longer rejects the quote character and wraps the name verbatim")
+        mod_name = mod
+        own_qi = c.methods.get("quote_identifier")
+        for (consts, why) in facts.IDENTIFIER_REFUSALS.get(cls, []):
+            refused = own_qi is not None and any(
+                isinstance(iff, ast.If) and any(isinstance(b_, ast.Raise) for b_ in iff.body)
+                and consts <= {str(k.value).lower() for k in ast.walk(iff.test) if isinstance(k, ast.Constant) and isinstance(k.value, str)}
+                for iff in ast.walk(own_qi.node))
+            if refused:
+                res.ok("C14-S4", f"{cls}: quote_identifier refuses the names the dialect cannot refer to ({sorted(consts)})")
+            else:
+                res.fail("C14-S4", f"{mod_name}:{cls}", f"{cls}:identifier-not-refused:{'/'.join(sorted(consts))}",
+                         f"{cls}: no quoting makes a name {sorted(consts)} refer to the column, and quote_identifier does not refuse it — {why}", f"data_algebra/{mod_name}.py", 0)
         for ch in sorted(facts.IDENTIFIER_SPECIALS.get(cls, set())):
             nm = {"\\": "backslash"}.get(ch, repr(ch))
             res.fail_at("C14-S4", qi, f"{cls}:identifier-{nm}",
@@ -713,7 +775,13 @@ def _s4c(program, res):
                 if isinstance(r, ast.Raise):
                     for x in ast.walk(r):
                         in_raise.add(id(x))
-            bad = [(nd, w) for (nd, w) in bad if id(nd) not in in_raise]
+            # ... and a call inside the test of a refusal (`if name.lower() in (...): raise`) inspects the text, it does not rewrite what is returned
+            in_refusal_test = set()
+            for iff in ast.walk(m.node):
+                if isinstance(iff, ast.If) and iff.body and all(isinstance(b_, ast.Raise) for b_ in iff.body) and not iff.orelse:
+                    for x in ast.walk(iff.test):
+                        in_refusal_test.add(id(x))
+            bad = [(nd, w) for (nd, w) in bad if id(nd) not in in_raise and id(nd) not in in_refusal_test]
             if bad:
                 nd, w = bad[0]
                 res.fail_at("C14-S4", m, f"sanitiser-rewrites-text:{w}",
@@ -727,6 +795,7 @@ def _s4c(program, res):
 def run(program, res, tier):
     res.rule("C14-S1", "every leaf of every SQL text sink is constant, configuration, numeric, sanitised or generated")
     res.rule("C14-S2", "no expression source text built from user strings inside the generator")
+    _s2b_quoted_interpolation(program, res)
     res.rule("C14-S3", "comment text is constant, configuration or cleaned of line breaks")
     res.rule("C14-S4", "quote_string / quote_identifier cover the dialect's special characters")
     res.rule("C14-S5", "no string-inspecting rewrite of assembled SQL")
